@@ -80,3 +80,23 @@ Theorem C18_unpatched_stdin_pipe_refuted :
   exists k version, stdin_open_ok false k version = false.
 Proof. exact stdin_unfixed_refuted. Qed.
 Print Assumptions C18_unpatched_stdin_pipe_refuted.
+
+(* Why lone --no-wrap sources other than a multi-chunk file are outside the round-trip clause: a
+   root of the archive has no name.  A lone file of at most one chunk is packed as a single raw
+   block (raw-codec root), a lone symlink as a symlink-typed node; `car extract` skips the first by
+   design and sees no entries in the second: it reports zero files and changes nothing.  (The check
+   requires exactly that of the implementation for these sources: status "no files extracted" and
+   an empty output directory.) *)
+Theorem C18_raw_root_is_skipped :
+  forall fs cwd outdir, extract_cmd true fs cwd outdir [] [RRaw] = (fs, XOk 0).
+Proof. exact extract_raw_root. Qed.
+Print Assumptions C18_raw_root_is_skipped.
+
+Theorem C18_symlink_root_extracts_nothing :
+  forall fs cwd outdir root tg,
+    (forall k, look fs (Nat.iter k (@removelast name) cwd) = Some NDir) ->
+    eval_symlinks_str fs cwd outdir = Some root ->
+    look fs (phys_of cwd root) = Some NDir ->
+    extract_cmd true fs cwd outdir [] [RNode (ULink tg)] = (fs, XOk 0).
+Proof. exact extract_symlink_root. Qed.
+Print Assumptions C18_symlink_root_extracts_nothing.
